@@ -38,6 +38,33 @@ class Scenario:
         return Scenario(w[1], *[int(x) for x in w[2:]])
 
 
+def group_line(group, mode=None):
+    """several experiments run one after the other in ONE process are written on one line, separated by ' ; '"""
+    return " ; ".join(sc.line(mode) for sc in group)
+
+
+def parse_group(line):
+    return [Scenario.parse(x.strip()) for x in line.split(";") if x.strip()]
+
+
+def split_blocks(out):
+    """the harness prints one block per experiment, each introduced by 'X <ordinal>'"""
+    blocks, cur = [], None
+    for l in out.splitlines():
+        if l.startswith("X "):
+            cur = []
+            blocks.append(cur)
+        elif cur is not None:
+            cur.append(l)
+    return ["\n".join(b) + "\n" for b in blocks]
+
+
+def run_group(exe, group, timeout=300):
+    text = "".join(sc.line() + "\n" for sc in group)
+    rc, out, err = vlib.run_driver(exe, text, timeout=timeout)
+    return rc, split_blocks(out), err
+
+
 def parse_output(out):
     r = {"P": None, "S": [], "E": [], "C": {}, "D": {}, "R": None}
     for l in out.splitlines():
@@ -61,7 +88,8 @@ def parse_output(out):
 
 def run_one(exe, sc, mode=None, timeout=300):
     rc, out, err = vlib.run_driver(exe, sc.line(mode) + "\n", timeout=timeout)
-    return rc, out, err
+    b = split_blocks(out)
+    return rc, (b[0] if b else ""), err
 
 
 def check_counters(sc, r):
@@ -146,6 +174,51 @@ def generate(seed, count, flips_ok):
     return out
 
 
+def generate_groups(seed, count, flips_ok):
+    """Two or three experiments run by the SAME process, one after the other: the later ones have more trials than, as many as
+    and fewer than the first (also by more / less than the number of workers), other struct sizes, other worker counts."""
+    rng = random.Random(seed * 15485863 + 3)
+    kinds_pool = [0, K_SAMP, K_SAMP | K_MEMO, ALL_SIM, K_PROC | K_BUF] + ([K_SAMP | K_FLIP] if flips_ok else [])
+    out = []
+    for k in range(count):
+        W = rng.choice([0, 0, 1, 2, 3, CORES + 1])
+        Weff = W or CORES
+        n1 = rng.choice([1, 2, Weff - 1 or 1, Weff, Weff + 1, 3 * Weff, 10 * Weff])
+        shape = k % 6
+        if shape == 0:
+            ns = [n1, n1 + Weff + rng.randrange(1, 40)]            # larger than first + overshoot
+        elif shape == 1:
+            ns = [n1, n1]                                           # equal
+        elif shape == 2:
+            ns = [n1 + rng.randrange(1, 30), max(1, n1 // 2)]       # smaller
+        elif shape == 3:
+            ns = [n1, n1 + rng.randrange(1, Weff + 1)]              # larger, but by no more than the overshoot
+        elif shape == 4:
+            ns = [rng.choice([1, 10]), 100, 7]
+        else:
+            ns = [n1, 5 * n1 + 2 * Weff + 3, n1 + 1]
+        kinds = kinds_pool[k % len(kinds_pool)]
+        eseed = 1 + (seed * 37 + rng.randrange(3)) % 1000003
+        grp = []
+        for j, n in enumerate(ns):
+            Wj = W if j == 0 or rng.random() < 0.7 else rng.choice([0, 1, 2, 5])
+            grp.append(Scenario("par", Wj, n, SIZES[(k + 2 * j) % len(SIZES)], eseed + j, rng.choice([0, 1, 5]),
+                                rng.choice([0, 40]) if n < 4 * CORES else 0, kinds))
+        out.append(grp)
+    return out
+
+
+def stress_groups(seed, count):
+    """empty trials, several experiments per process"""
+    rng = random.Random(seed * 32452843 + 11)
+    out = []
+    for k in range(count):
+        W = rng.choice([0, 1, 2, 3])
+        ns = [[10, 100, 7], [1, 1], [3, 40], [CORES, 3 * CORES + 5, 2], [2, 2, 2]][k % 5]
+        out.append([Scenario("par", W, n, SIZES[(k + j) % len(SIZES)], 1 + k + j, 0, 0, 0) for j, n in enumerate(ns)])
+    return out
+
+
 def stress(seed, count):
     """empty trials, maximal contention on the counter; last-long / first-long patterns for the join"""
     rng = random.Random(seed * 104729 + 7)
@@ -172,15 +245,16 @@ def corpus_files():
 
 
 def read_corpus(path):
-    """returns (expect, [Scenario]) ; expect in {'same', 'differ'} from a '# expect: ...' line"""
-    expect, scs = "same", []
+    """returns (expect, [group]) ; expect in {'same', 'differ'} from a '# expect: ...' line; a group is a list of Scenario run in
+    one process (one line, ' ; ' separated)"""
+    expect, groups = "same", []
     for l in open(path):
         l = l.strip()
         if l.startswith("# expect:"):
             expect = l.split(":", 1)[1].strip().split()[0]
         elif l.startswith("run "):
-            scs.append(Scenario.parse(l))
-    return expect, scs
+            groups.append(parse_group(l))
+    return expect, groups
 
 
 def digests(r):
